@@ -26,6 +26,14 @@ PLAN = {
  "C13c-is-unsorted-strictly-descending": ["C13", "C04"], "C14c-segsites-includes-first": ["C14", "C06"], "C15c-v3-header-len-2-bytes": ["C15"],
  "C16c-trim-ascii-before-detect": ["C16", "C07"], "C17c-adjacent-duplicate-check": ["C17", "C04"], "C18c-read-not-exact-v2-len": ["C18", "C15"],
  "C19c-get-mut-unchecked": ["C19"],
+ # round 4
+ "C01d-any-missing-format-value": ["C01", "C08"], "C02d-projectable-needs-positive-total": ["C02", "C11"],
+ "C03d-view-skip-project-same-elements": ["C03", "C13"], "C04d-cli-remove-arm-filter": ["C04", "C13"], "C05d-fill-minus-one-sign": ["C05"],
+ "C06d-harmonic-asymptotic": ["C06"], "C07d-npy-buffer-not-cleared": ["C07", "C15"], "C08d-early-insufficient-with-projection": ["C08"],
+ "C09d-ploidy-error-unselected": ["C09", "C01"], "C10d-numerator-finite-only": ["C10", "C02"], "C11d-skip-same-position": ["C11", "C01"],
+ "C12d-threads-cap-minus-one": ["C12"], "C13d-mask-before-project": ["C13"], "C14d-tajima-variance-s": ["C14", "C06"],
+ "C15d-npy-block-buffer-not-cleared": ["C15", "C07"], "C16d-i4-read-as-i16": ["C16", "C15"], "C17d-populations-nonempty-any": ["C17", "C09"],
+ "C18d-peek-magic-fill-buf": ["C18"], "C19d-get-axis-off-by-one": ["C19"],
 }
 seeds = sys.argv[1:] or sorted(PLAN)
 for seed in seeds:
